@@ -1,6 +1,6 @@
 ------------------------------ MODULE CompCheck ------------------------------
 (* Code -> specification for C19. Input (IOEnv.CASE_FILE): {"progs": [...], "obs": [{p, ins, outs, single, ell, vals,
-   raised, stage, errclass, val, exec, orig_same}]} ; one state per observation. *)
+   raised, stage, errclass, val, exec, orig_same, pre}]} ; one state per observation. *)
 EXTENDS Compose, TLC, Json, IOUtils
 
 Data == JsonDeserialize(IOEnv.CASE_FILE)
@@ -31,7 +31,8 @@ Bad(W) ==
        <<~may /\ ~exp.err /\ W.raised /\ ~isVE, "C19.internal">>,
        <<inEq /\ ~W.raised /\ W.val # exp.val, "C19.value">>,
        <<Overlap(W.ins, W.outs) /\ ~must /\ ~exp.err /\ ~W.raised /\ W.val # exp.val, "C19.value">>,
-       <<inEq /\ ~W.raised /\ RangeOf(W.exec) # exp.exec, "C19.exec">>,
+       \* setup results the original had computed when it was composed (W.pre) are taken from it, not computed again
+       <<inEq /\ ~W.raised /\ RangeOf(W.exec) # exp.exec \ RangeOf(W.pre), "C19.exec">>,
        <<~W.orig_same, "C19.original-changed">>})
 
 Check ==
